@@ -1131,24 +1131,39 @@ class ModelBuilder:
             for prec_item in precedes_list:
                 # prec_item can be a dict with 'ref' key or a string
                 prec_ref = prec_item.get("ref", "") if isinstance(prec_item, dict) else prec_item
+                options = prec_item if isinstance(prec_item, dict) else {}
 
                 target_task = self._resolve_task_reference(project, source_task, prec_ref)
                 if target_task:
+                    # 'A precedes B { gapduration 2h }' is 'B depends A { gapduration 2h }'
+                    new_dep: Any = source_task
+                    if any(options.get(key) for key in ("gapduration", "gaplength", "maxgapduration", "onstart", "onend")):
+                        new_dep = {
+                            "task": source_task,
+                            "gapduration": options.get("gapduration"),
+                            "gaplength": options.get("gaplength"),
+                            "maxgapduration": options.get("maxgapduration"),
+                            "onstart": options.get("onstart", False),
+                            "onend": options.get("onend", False),
+                        }
                     # Add source_task as a dependency of target_task
                     for scIdx in range(project.scenarioCount()):
                         existing_deps = target_task.get("depends", scIdx) or []
-                        if not isinstance(existing_deps, list):
-                            existing_deps = [existing_deps] if existing_deps else []
-                        # Check if source_task is already in dependencies
+                        # Check if the same edge is already in the dependencies
                         already_exists = False
                         for dep in existing_deps:
-                            dep_task = dep.get("task") if isinstance(dep, dict) else dep
-                            if dep_task is source_task:
+                            if isinstance(dep, dict) != isinstance(new_dep, dict):
+                                continue
+                            if isinstance(dep, dict):
+                                if dep == new_dep:
+                                    already_exists = True
+                                    break
+                            elif dep is source_task:
                                 already_exists = True
                                 break
                         if not already_exists:
-                            existing_deps.append(source_task)
-                            target_task[("depends", scIdx)] = existing_deps
+                            # Setting a list attribute appends to the stored list
+                            target_task[("depends", scIdx)] = [new_dep]
 
     def _resolve_task_reference(self, project: Project, from_task: Task, ref: str) -> Optional[Task]:
         """Resolve a task reference string to a Task object.
